@@ -273,7 +273,7 @@ def generate(ctx, n_ops):
             continue
         # a law instance: compute both sides; the oracle's identity map catches a difference
         ctx.extra["law_instances"] += 1
-        law = rng.choice(["comm", "assoc", "one", "inv", "div", "powadd", "powmul", "rootpow"])
+        law = rng.choice(["comm", "assoc", "one", "inv", "div", "powadd", "powmul", "rootpow", "dimless", "dimless"])
         x, y = ctx.pick_pair()
         z = leaf()
         if not (ctx.compatible(x, z) and ctx.compatible(y, z)):
@@ -325,6 +325,23 @@ def generate(ctx, n_ops):
                 yield "U\tpow\tu%d\t%d" % (xa, b)
                 yield "U\tpow\tu%d\t%d" % (x, a * b)
                 emitted += 2
+        elif law == "dimless":
+            # a dimensionless unit that still carries a prefix: (p*x)/x has the single factor One.
+            # Powers, products and quotients of it must land on the canonical objects too.
+            p = ctx.pick_prefix_for(x)
+            px = uref((yield "U\tpmul\t%s\tu%d" % (ctx.pfx_tok(p), x)))
+            emitted += 1
+            if px is not None:
+                r = uref((yield "U\tdiv\tu%d\tu%d" % (px, x)))
+                emitted += 1
+                if r is not None:
+                    yield "U\tpow\tu%d\t%d" % (r, n)
+                    yield "U\tmul\tu%d\tu%d" % (r, r)
+                    yield "U\tpow\tu%d\t2" % r
+                    yield "U\tdiv\tu%d\tu%d" % (ctx.one, r)
+                    yield "U\tpow\tu%d\t-1" % r
+                    yield "U\tpow\tu%d\t%d" % (ctx.one, n)
+                    emitted += 6
         elif law == "rootpow":
             xn = uref((yield "U\tpow\tu%d\t%d" % (x, n)))
             emitted += 1
